@@ -1,6 +1,7 @@
 package props
 
 import (
+	"fmt"
 	"bytes"
 	"go/ast"
 	"go/printer"
@@ -34,11 +35,11 @@ var reFamily = regexp.MustCompile(`Float|Integer|String|Boolean|float64|int64|st
 func runC11(c *core.Ctx) {
 	c.Rule("C11.wiring", "A7: each chaining method M of pipeline/influxql.go creates its node with the name lowerFirst(M) and every reducer it stores in ReduceCreater.Create<A>[<B>]Reducer is built by a constructor that (or whose function argument) carries M's stem (the aggregator/emitter type family is enforced by the field's Go type)")
 	c.Rule("C11.families", "A11: within one ReduceCreater literal the per-type closures are identical once type-family words are removed (same constructor shape, same constant arguments for float/int/string/bool variants)")
-	c.Rule("C11.lifecycle", "A2/A1: influxqlGroup.BeginBatch stores rc=nil, batchSize=0 (the constant) and bc.time=begin.Time(); BatchPoint increments batchSize on every path that aggregated the point; EndBatch emits nothing iff batchSize==0 ∧ ¬IsEmptyOK; the stream Point emits the finished context on a time advance, resets name/time/rc, then aggregates the new point")
+	c.Rule("C11.lifecycle", "A2/A1: influxqlGroup.BeginBatch stores rc=nil, batchSize=0 (the constant), bc.time=begin.Time() and bc.name=begin.Name(); a stream transformation emits nothing on the path where AggregatePoint failed; BatchPoint increments batchSize on every path that aggregated the point; EndBatch emits nothing iff batchSize==0 ∧ ¬IsEmptyOK; the stream Point emits the finished context on a time advance, resets name/time/rc, then aggregates the new point")
 	c.Rule("C11.emit", "A1/A3: <T>PointEmitter.EmitPoint yields nothing unless exactly one value was reduced; stamps ap.Time iff pointTimes ∧ ap.Time≠ZeroTime else e.time; aggregates carry {e.as: ap.Value} and the group's tags, selectors the selected point's tags and a copy of its fields with field renamed to as; the message carries e.name and the group's dimensions")
 	c.Rule("C11.gen", "A11: the float, integer, string and boolean families of influxql.gen.go (convert<T>Point, <t>PopulateAuxFieldsAndTags, AggregatePoint, EmitPoint, EmitBatch) are structurally identical modulo type words")
 	c.Rule("C11.convert", "A1: convert<T>Point takes the value at `field`, returns an error (no point) when the field is missing or not of the family's Go type, and stamps p.Time().UnixNano()")
-	c.Rule("C11.context", "A7: InfluxQLNode.newGroup seeds the reduce context with as←n.n.As, field←n.n.Field, name←first.Name(), groupInfo←first.GroupInfo(), time←first.Time(), pointTimes←n.n.PointTimes ∨ isStreamTransformation")
+	c.Rule("C11.context", "A7: InfluxQLNode.newGroup seeds the reduce context with as←n.n.As, field←n.n.Field, name←first.Name(), groupInfo←first.GroupInfo(), time←first.Time(), pointTimes←(n.n.PointTimes ∧ (simple selector ∨ provides a batch)) ∨ isStreamTransformation, compared as a truth table (F52)")
 
 	if pp := c.P.Pkg("pipeline"); pp != nil {
 		c11Wiring(c, pp)
@@ -220,6 +221,60 @@ func c11Lifecycle(c *core.Ctx, root *packages.Package) {
 			c.Check(got["batchSize"] == "0", "C11.lifecycle", "influxqlGroup.BeginBatch#batchSize", fn.Decl.Pos(), "BeginBatch must start counting at the constant 0 (is %q); a size hint is only a hint (0 = unknown after where/eval) and does not say how many points will be aggregated", got["batchSize"])
 			c.Check(got["bc.time"] == begin+".Time()", "C11.lifecycle", "influxqlGroup.BeginBatch#time", fn.Decl.Pos(), "the context time must be the batch's time (is %q)", got["bc.time"])
 			c.Check(got["begin"] == begin, "C11.lifecycle", "influxqlGroup.BeginBatch#begin", fn.Decl.Pos(), "the begin message must be remembered (is %q)", got["begin"])
+			// F53: the stream path takes the result's name from the current point; the batch path must take it from the batch
+			c.Check(got["bc.name"] == begin+".Name()", "C11.lifecycle", "influxqlGroup.BeginBatch#name", fn.Decl.Pos(), "the context name must be the batch's name (is %q): the result of every batch is otherwise named after the first batch the group ever saw — in a group that is not by measurement the aggregate of a batch named mem is emitted as cpu", got["bc.name"])
+		}
+	}
+	// F51: a stream transformation that could not aggregate the point emits nothing (the reducer would hand out its previous
+	// result again, with its old time)
+	for _, mname := range []string{"Point", "BatchPoint"} {
+		fn := c.Need("C11.lifecycle", "", "influxqlStreamingTransformGroup", mname)
+		if fn == nil {
+			continue
+		}
+		eng := &an.Engine{Prog: c.P,
+			TrackCall: func(call *ast.CallExpr, callee *types.Func) string {
+				if callee == nil {
+					return ""
+				}
+				switch callee.Name() {
+				case "AggregatePoint":
+					return "aggregate"
+				case "EmitPoint", "EmitBatch", "emit":
+					return "emit"
+				}
+				return ""
+			},
+			Classify: func(a an.Atom) (string, bool) {
+				if k, ok := an.ErrNilAtom(info, a); ok && strings.Contains(k, ".AggregatePoint(") {
+					return "aggerr", true
+				}
+				return "", false
+			}}
+		paths, err := eng.Run(fn)
+		if err != nil {
+			c.Undecided("C11.lifecycle", "influxqlStreamingTransformGroup."+mname, fn.Decl.Pos(), "%v", err)
+			continue
+		}
+		good, seen := true, false
+		for _, p := range paths {
+			if !p.Has("aggregate") {
+				continue
+			}
+			v, decided := p.Assign()["aggerr"]
+			if !decided {
+				good = false
+				c.Fail("C11.lifecycle", "influxqlStreamingTransformGroup."+mname+"#aggregate-error", p.RetPos, "the error of AggregatePoint is not looked at on path [%s]", p.Cond())
+				continue
+			}
+			seen = true
+			if v && p.Has("emit") {
+				good = false
+				c.Fail("C11.lifecycle", "influxqlStreamingTransformGroup."+mname+"#no-emit-after-error", p.RetPos, "the point could not be aggregated (missing field, other type) and the reducer is still asked to emit: cumulativeSum, elapsed and movingAverage hand out their previous result again, the last value is repeated with its old time for every such point; path [%s]", p.Cond())
+			}
+		}
+		if good && seen {
+			c.Ok("C11.lifecycle", "influxqlStreamingTransformGroup."+mname+"#no-emit-after-error")
 		}
 	}
 	if fn := c.Need("C11.lifecycle", "", "influxqlGroup", "BatchPoint"); fn != nil {
@@ -589,9 +644,81 @@ func c11Context(c *core.Ctx, root *packages.Package) {
 		return
 	}
 	got := litFieldSet(lit)
-	want := map[string][]string{"as": {n + ".n.As"}, "field": {n + ".n.Field"}, "name": {first + ".Name()"}, "groupInfo": {first + ".GroupInfo()"}, "time": {first + ".Time()"},
-		"pointTimes": {n + ".n.PointTimes || " + n + ".isStreamTransformation", n + ".isStreamTransformation || " + n + ".n.PointTimes"}}
+	want := map[string][]string{"as": {n + ".n.As"}, "field": {n + ".n.Field"}, "name": {first + ".Name()"}, "groupInfo": {first + ".GroupInfo()"}, "time": {first + ".Time()"}}
 	for _, f := range an.SortedKeys(want) {
 		c.Check(matchAny(got[f], want[f]), "C11.context", "InfluxQLNode.newGroup#"+f, lit.Pos(), "the reduce context's %s must be %s, is %q", f, want[f][0], got[f])
 	}
+	// pointTimes is a boolean function of four facts; it is compared as a truth table, not as text. Reference (F52, the property's
+	// documentation: "only applies to selector functions … aggregation functions always use the batch time"; stream
+	// transformations always carry their point's time): (PointTimes ∧ (simple selector ∨ provides a batch)) ∨ stream transformation
+	var ptx ast.Expr
+	for _, el := range lit.Elts {
+		if kv, ok := el.(*ast.KeyValueExpr); ok {
+			if k, ok := kv.Key.(*ast.Ident); ok && k.Name == "pointTimes" {
+				ptx = kv.Value
+			}
+		}
+	}
+	if ptx == nil {
+		c.Fail("C11.context", "InfluxQLNode.newGroup#pointTimes", lit.Pos(), "the reduce context's pointTimes is not set")
+		return
+	}
+	atomOf := func(e ast.Expr) string {
+		s := types.ExprString(ast.Unparen(e))
+		switch {
+		case strings.HasSuffix(s, ".PointTimes"):
+			return "pt"
+		case strings.HasSuffix(s, ".isStreamTransformation"):
+			return "st"
+		case strings.HasSuffix(s, ".IsSimpleSelector"):
+			return "sel"
+		case strings.Contains(s, ".Provides()") && strings.Contains(s, "BatchEdge") && strings.Contains(s, "=="):
+			return "batch"
+		case strings.Contains(s, ".Provides()") && strings.Contains(s, "StreamEdge") && strings.Contains(s, "!="):
+			return "batch"
+		}
+		return ""
+	}
+	var eval func(e ast.Expr, a map[string]bool) (bool, bool)
+	eval = func(e ast.Expr, a map[string]bool) (bool, bool) {
+		e = ast.Unparen(e)
+		switch x := e.(type) {
+		case *ast.BinaryExpr:
+			if x.Op == token.LAND || x.Op == token.LOR {
+				l, ok1 := eval(x.X, a)
+				r, ok2 := eval(x.Y, a)
+				if x.Op == token.LAND {
+					return l && r, ok1 && ok2
+				}
+				return l || r, ok1 && ok2
+			}
+		case *ast.UnaryExpr:
+			if x.Op == token.NOT {
+				v, ok := eval(x.X, a)
+				return !v, ok
+			}
+		}
+		if k := atomOf(e); k != "" {
+			return a[k], true
+		}
+		return false, false
+	}
+	bad := ""
+	names := []string{"pt", "st", "sel", "batch"}
+	for m := 0; m < 16 && bad == ""; m++ {
+		a := map[string]bool{}
+		for i, k := range names {
+			a[k] = m&(1<<i) != 0
+		}
+		got, ok := eval(ptx, a)
+		if !ok {
+			c.Undecided("C11.context", "InfluxQLNode.newGroup#pointTimes", ptx.Pos(), "pointTimes is not a boolean combination of the four known facts: %s", types.ExprString(ptx))
+			return
+		}
+		ref := (a["pt"] && (a["sel"] || a["batch"])) || a["st"]
+		if got != ref {
+			bad = fmt.Sprintf("usePointTimes=%v, stream transformation=%v, simple selector=%v, provides batch=%v: is %v, must be %v", a["pt"], a["st"], a["sel"], a["batch"], got, ref)
+		}
+	}
+	c.Check(bad == "", "C11.context", "InfluxQLNode.newGroup#pointTimes", ptx.Pos(), "the reduce context's pointTimes differs from the documented rule ((usePointTimes ∧ the function selects points) ∨ stream transformation) at %s — with usePointTimes a pure aggregation would take the time of its seed point (count and sum start from a point at time 0: every window is stamped 1970-01-01T00:00:00Z)", bad)
 }
